@@ -329,12 +329,12 @@ def Rect.floor (self : Rect K) : Rect K :=
 instance : MFloor (Rect K) := ⟨Rect.floor⟩
 
 def Rect.expand (self : Rect K) : Rect K :=
-  (let (x0, x1) := (if (self.x0 <. self.x1) then ((MFloor.floor self.x0), (MCeil.ceil self.x1)) else ((MCeil.ceil self.x0), (MFloor.floor self.x1))); (let (y0, y1) := (if (self.y0 <. self.y1) then ((MFloor.floor self.y0), (MCeil.ceil self.y1)) else ((MCeil.ceil self.y0), (MFloor.floor self.y1))); (Rect.new x0 y0 x1 y1)))
+  (let (x0, x1) := (if (self.x0 <=. self.x1) then ((MFloor.floor self.x0), (MCeil.ceil self.x1)) else ((MCeil.ceil self.x0), (MFloor.floor self.x1))); (let (y0, y1) := (if (self.y0 <=. self.y1) then ((MFloor.floor self.y0), (MCeil.ceil self.y1)) else ((MCeil.ceil self.y0), (MFloor.floor self.y1))); (Rect.new x0 y0 x1 y1)))
 
 instance : MExpand (Rect K) := ⟨Rect.expand⟩
 
 def Rect.trunc (self : Rect K) : Rect K :=
-  (let (x0, x1) := (if (self.x0 <. self.x1) then ((MCeil.ceil self.x0), (MFloor.floor self.x1)) else ((MFloor.floor self.x0), (MCeil.ceil self.x1))); (let (y0, y1) := (if (self.y0 <. self.y1) then ((MCeil.ceil self.y0), (MFloor.floor self.y1)) else ((MFloor.floor self.y0), (MCeil.ceil self.y1))); (Rect.new x0 y0 x1 y1)))
+  (let (x0, x1) := (if (self.x0 <=. self.x1) then ((MCeil.ceil self.x0), (MFloor.floor self.x1)) else ((MFloor.floor self.x0), (MCeil.ceil self.x1))); (let (y0, y1) := (if (self.y0 <=. self.y1) then ((MCeil.ceil self.y0), (MFloor.floor self.y1)) else ((MFloor.floor self.y0), (MCeil.ceil self.y1))); (Rect.new x0 y0 x1 y1)))
 
 instance : MTrunc (Rect K) := ⟨Rect.trunc⟩
 
@@ -452,7 +452,7 @@ def Affine.pre_rotate (self : Affine K) (th : K) : Affine K :=
   (self * (Affine.rotate th))
 
 def Affine.pre_rotate_about (self : Affine K) (th : K) (center : Point K) : Affine K :=
-  ((Affine.rotate_about th center) * self)
+  (self * (Affine.rotate_about th center))
 
 def Affine.pre_scale (self : Affine K) (scale : K) : Affine K :=
   (self * (Affine.scale scale))
